@@ -16,15 +16,25 @@ ReqSeqsSmall == {<<a>> : a \in Files} \cup Pairs
 AllOk == [f \in Files |-> "ok"]
 OneFault(kinds) == {[f \in Files |-> IF f = g THEN k ELSE "ok"] : g \in Files, k \in kinds}
 
-ConfigsNoFault == {[imports |-> g, req |-> r, plan |-> AllOk, par |-> n] : g \in Graphs, r \in ReqSeqs, n \in Pars}
-ConfigsNoFaultSmall == {[imports |-> g, req |-> r, plan |-> AllOk, par |-> n] : g \in Graphs, r \in ReqSeqsSmall, n \in Pars}
-ConfigsMissing == {[imports |-> g, req |-> r, plan |-> p, par |-> n] :
+ConfigsNoFault == {[imports |-> g, req |-> r, plan |-> AllOk, par |-> n, ovr |-> FALSE] : g \in Graphs, r \in ReqSeqs, n \in Pars}
+ConfigsNoFaultSmall == {[imports |-> g, req |-> r, plan |-> AllOk, par |-> n, ovr |-> FALSE] : g \in Graphs, r \in ReqSeqsSmall, n \in Pars}
+ConfigsMissing == {[imports |-> g, req |-> r, plan |-> p, par |-> n, ovr |-> FALSE] :
                      g \in Graphs, r \in ReqSeqsSmall, p \in {AllOk} \cup OneFault({"err"}), n \in Pars}
-ConfigsFaults  == {[imports |-> g, req |-> r, plan |-> p, par |-> n] :
+ConfigsFaults  == {[imports |-> g, req |-> r, plan |-> p, par |-> n, ovr |-> FALSE] :
                      g \in Graphs, r \in ReqSeqsSmall, p \in {AllOk} \cup OneFault({"err", "panic", "short"}), n \in Pars}
 
+(* override of descriptor.proto: DP imports nothing, is never imported explicitly; the other files
+   form every graph over Files \ {DP} *)
+NonDP == Files \ {DP}
+PairsN == {<<a, b>> : a, b \in NonDP} \ {<<a, a>> : a \in NonDP}
+ListsN == {<<>>} \cup {<<a>> : a \in NonDP} \cup PairsN
+GraphsOvr == {g \in [Files -> ListsN] : g[DP] = <<>>}
+ReqN == {<<a>> : a \in NonDP} \cup PairsN
+ConfigsOvr == {[imports |-> g, req |-> r, plan |-> p, par |-> n, ovr |-> TRUE] :
+                 g \in GraphsOvr, r \in ReqN, p \in {AllOk} \cup OneFault({"err"}), n \in Pars}
+
 (* Direction A: one case per configuration, with the outcomes the statements allow *)
-Case == [imports |-> imports, req |-> req, plan |-> plan, par |-> par,
+Case == [imports |-> imports, req |-> req, plan |-> plan, par |-> par, ovr |-> ovr,
          allowed |-> AllowedNoCancel, hasCycle |-> HasCycle, hasFault |-> HasFault]
 Export == (mpc = "start") => PrintT("CASE " \o ToJson(Case))
 =============================================================================
